@@ -48,6 +48,7 @@ type c46Shape struct {
 	rank     []int // commit time rank
 	maxL     int   // max lines per version
 	baseMaxL int   // max lines of the root commit's version (-1 = maxL)
+	syms     int   // number of distinct line texts used by this shape (0 = all)
 	ids      []string
 }
 
@@ -249,12 +250,22 @@ func runC46(c *fw.Ctx) {
 		&c46Shape{name: "merge M(X,Y), skewed times: M older than everything", parents: [][]int{{}, {0}, {0}, {1, 2}}, rank: []int{1, 2, 3, 0}, maxL: mergeL, baseMaxL: mergeBase},
 	)
 
+	// criss-cross: X is reached twice during one walk, as the only parent of C1 and as the second parent of the
+	// merge C2 = M(Y, X); the tip T = M(C2, C1) merges both. Two line texts, versions of up to two lines, empty
+	// root, every relative age of X/Y and of C1/C2.
+	crissParents := [][]int{{}, {0}, {0}, {1}, {2, 1}, {4, 3}}
+	for _, rk := range [][]int{{0, 1, 2, 3, 4, 5}, {0, 2, 1, 3, 4, 5}, {0, 1, 2, 4, 3, 5}, {0, 2, 1, 4, 3, 5}} {
+		shapes = append(shapes, &c46Shape{name: fmt.Sprintf("criss-cross T=M(C2,C1), C2=M(Y,X), C1 child of X, time ranks %v", rk), parents: crissParents, rank: rk, maxL: 2, baseMaxL: 0, syms: 2})
+	}
 	// enumerate cases
 	var cases []*c46Case
 	versOf := map[int][][]int{}
 	uniq := map[int][][]bool{}
 	for si, sh := range shapes {
 		vs := c46Versions(sh.maxL)
+		if sh.syms > 0 {
+			vs = fw.Seqs(sh.syms, sh.maxL)
+		}
 		versOf[si] = vs
 		u := make([][]bool, len(vs))
 		for a := range vs {
